@@ -21,6 +21,18 @@ def run_property(prop, tier, seed, replay=None):
         covs.append(props_map.collect(rep, prop, tier, seed, exe, None, replay))
     if fam in (None, "S"):
         covs.append(props_sub.collect(rep, prop, tier, seed, exe, replay))
+    if fam in (None, "V"):
+        # the mapping conversions (every converting constructor on valid inputs) under the sanitizers
+        import common as _c, props_conv
+        try:
+            _c.CFG_OVERRIDE = ["gcc23-san", "clang20-san"]
+            _c.SCALE = 0.6 if tier == "quick" else 1.0
+            cv = props_conv.collect(rep, prop, tier, seed, exe, replay if fam == "V" else None)
+            cv["family"] = "V"
+            covs.append(cv)
+        finally:
+            _c.CFG_OVERRIDE = None
+            _c.SCALE = 1.0
     if fam in (None, "CE"):
         try:
             import props_consteval
